@@ -320,6 +320,87 @@ fn is_harness_location(loc: &str) -> bool {
 // Running
 // ------------------------------------------------------------------------------------------------
 
+// ------------------------------------------------------------------------------------------------
+// Watchdog: a case stuck in native code (or allocating without bound) cannot be cut by fuel
+// ------------------------------------------------------------------------------------------------
+
+pub struct Slot {
+    pub started: Option<Instant>,
+    pub tape: Vec<u32>,
+    pub section: &'static str,
+}
+
+pub static SLOTS: std::sync::Mutex<Vec<Slot>> = std::sync::Mutex::new(Vec::new());
+thread_local! {
+    static MY_SLOT: std::cell::Cell<usize> = std::cell::Cell::new(usize::MAX);
+}
+
+fn slot_begin(section: &'static str, tape: &[u32]) {
+    let idx = MY_SLOT.with(|m| m.get());
+    let mut g = SLOTS.lock().unwrap();
+    let idx = if idx == usize::MAX {
+        g.push(Slot { started: None, tape: vec![], section });
+        let i = g.len() - 1;
+        MY_SLOT.with(|m| m.set(i));
+        i
+    } else {
+        idx
+    };
+    let s = &mut g[idx];
+    s.started = Some(Instant::now());
+    s.tape.clear();
+    s.tape.extend_from_slice(tape);
+    s.section = section;
+}
+
+fn slot_end() {
+    let idx = MY_SLOT.with(|m| m.get());
+    if idx != usize::MAX {
+        SLOTS.lock().unwrap()[idx].started = None;
+    }
+}
+
+fn rss_gib() -> f64 {
+    std::fs::read_to_string("/proc/self/statm")
+        .ok()
+        .and_then(|s| s.split_whitespace().nth(1).and_then(|p| p.parse::<f64>().ok()))
+        .map(|pages| pages * 4096.0 / (1u64 << 30) as f64)
+        .unwrap_or(0.0)
+}
+
+pub fn start_watchdog(prop: &'static str, limit_s: u64) {
+    std::thread::spawn(move || loop {
+        std::thread::sleep(std::time::Duration::from_millis(1000));
+        let rss = rss_gib();
+        let g = SLOTS.lock().unwrap();
+        let mut stuck: Option<(&Slot, u64)> = None;
+        for s in g.iter() {
+            if let Some(t0) = s.started {
+                let el = t0.elapsed().as_secs();
+                if el >= limit_s || rss > 24.0 {
+                    if stuck.map(|(_, e)| el > e).unwrap_or(true) {
+                        stuck = Some((s, el));
+                    }
+                }
+            }
+        }
+        if let Some((s, el)) = stuck {
+            let v = Violation {
+                section: s.section.to_string(),
+                signature: "watchdog/hang-or-runaway-allocation".into(),
+                tape: s.tape.clone(),
+                detail: json!({"elapsed_s": el, "rss_gib": rss, "note": "case did not finish; not cut by fuel, so it is stuck inside native code or allocating without bound"}),
+            };
+            let path = write_replay(prop, &v);
+            println!(
+                "INCONCLUSIVE property={} watchdog: a case in section {} ran {} s (rss {:.1} GiB) without finishing; tape saved to {}",
+                prop, s.section, el, rss, path
+            );
+            std::process::exit(2);
+        }
+    });
+}
+
 pub struct Violation {
     pub section: String,
     pub signature: String,
@@ -336,6 +417,7 @@ pub enum CaseOutcome {
 /// Runs one case with bookkeeping; known findings are counted and pass.
 fn run_case(
     prop: &str,
+    section: &'static str,
     case: CaseFn,
     tape: &[u32],
     stats: &mut Stats,
@@ -343,7 +425,9 @@ fn run_case(
     strict: bool,
 ) -> CaseOutcome {
     let mut t = Tape::new(tape);
+    slot_begin(section, tape);
     let r = guarded(|| case(&mut t, stats));
+    slot_end();
     if stats.counting {
         stats.evaluations += 1;
     }
@@ -458,7 +542,7 @@ fn run_random_shard(
     let strat = pvec(any::<u32>(), 0..=max_len);
     let result = runner.run(&strat, |tape| {
         let mut st = stats.borrow_mut();
-        match run_case(prop, case, &tape, &mut st, &known, false) {
+        match run_case(prop, section, case, &tape, &mut st, &known, false) {
             CaseOutcome::Ok => Ok(()),
             CaseOutcome::Violation(f) => {
                 st.counting = false;
@@ -479,7 +563,7 @@ fn run_random_shard(
             // re-run the minimal tape to obtain the detail
             st.counting = false;
             let mut scratch = Stats::default();
-            match run_case(prop, case, &tape, &mut scratch, &known, false) {
+            match run_case(prop, section, case, &tape, &mut scratch, &known, false) {
                 CaseOutcome::Violation(f) => {
                     violation = Some(Violation {
                         section: section.to_string(),
@@ -527,7 +611,7 @@ fn run_exhaustive_shard(
     let mut i = shard as u64;
     while i < count {
         let tape = vec![(i >> 32) as u32, i as u32];
-        match run_case(prop, case, &tape, &mut st, &known, false) {
+        match run_case(prop, section, case, &tape, &mut st, &known, false) {
             CaseOutcome::Ok => {}
             CaseOutcome::Violation(f) => {
                 return SectionResult {
@@ -633,6 +717,8 @@ pub fn write_replay(prop: &str, v: &Violation) -> String {
 
 pub fn check(p: &Property, tier: Tier, seed: u64, only: Option<&str>) -> i32 {
     let start = Instant::now();
+    let limit: u64 = std::env::var("VERIF_CASE_LIMIT_S").ok().and_then(|v| v.parse().ok()).unwrap_or(60);
+    start_watchdog(p.id, limit);
     let known = Known::load();
     let mut total = Stats::default();
     let mut per_section = vec![];
@@ -808,11 +894,12 @@ pub fn replay(p: &Property, section: &str, tape: &[u32]) -> i32 {
     let case = sec.case;
     let tape = tape.to_vec();
     let id = p.id;
+    start_watchdog(id, 60);
     let h = std::thread::Builder::new()
         .stack_size(STACK)
         .spawn(move || {
             let mut st = Stats::default();
-            match run_case(id, case, &tape, &mut st, &known, true) {
+            match run_case(id, "replay", case, &tape, &mut st, &known, true) {
                 CaseOutcome::Ok => {
                     println!("replay: property {} held on this case", id);
                     0
